@@ -36,6 +36,13 @@ fn directive_info(text: &str) -> (Option<u64>, bool) {
     (width, line.contains("verbatim"))
 }
 
+/// The leading directive leaves less room than the default options: width of 40 or less, or
+/// an indent of 8.
+fn narrowing(text: &str) -> bool {
+    let line = text.lines().next().unwrap_or("");
+    text.starts_with("@[format(") && (directive_info(text).0.is_some_and(|w| w <= 40) || line.contains("indent(8)"))
+}
+
 fn squeeze(s: &str) -> String {
     s.chars().filter(|c| !c.is_whitespace()).collect()
 }
@@ -328,7 +335,7 @@ pub fn run(opts: &Opts) -> i32 {
         let (tag, text) = &inputs_copy[*i];
         sink.count("hung");
         if only == "c12" {
-            sink.violation("c12-formatter-does-not-terminate", serde_json::json!({"tag": tag, "limit_s": 30, "directive_width": directive_info(text).0, "source": text}));
+            sink.violation("c12-formatter-does-not-terminate", serde_json::json!({"tag": tag, "limit_s": 30, "directive_width": directive_info(text).0, "narrowing_directive": narrowing(text), "source": text}));
         }
     }
     let mut outputs: std::collections::HashMap<usize, Option<String>> = std::collections::HashMap::new();
